@@ -144,10 +144,33 @@ def run(A, R: Report, thorough: bool):
     R.trusted = TRUSTED_BASE + ['POSIX rename atomicity for os.replace and same-directory shutil.move']
     R.assumptions = ['power-loss durability out of scope', 'third-party writers named in effects.py write only to the path they are given']
 
+    E5 = effects_of(A)
     classes = persistent_data_classes(A)
     R.require(len(classes) >= 9, f'expected >= 9 concrete persistent data classes, found {len(classes)}')
     R.rule('R05.1', 'the visible path is created only by a rename from a distinct temporary that follows every write to it', floor=9)
     check_atomic_publish(A, R, 'R05.1', classes)
+
+    # ---- R05.5 leftovers of an earlier failed attempt never block a new attempt
+    R.rule('R05.5', 'no assertion on the save / init path can fail because a temporary or final path already exists', floor=1)
+    from ..terms import dag_nodes
+    n_assert = 0
+    for ci, vis in classes:
+        tmp = A.sym.func_term(ci.lookup('tmp_path'), ('inst', ci)) if ci.lookup('tmp_path') is not None else None
+        for mname in ('save', 'init_persistence', 'finished'):
+            f = ci.lookup(mname)
+            if f is None:
+                continue
+            for e in E5.collect(Ctx(f, ('inst', ci)), kinds={'ASSERT'}):
+                n_assert += 1
+                cond = e.target
+                if cond == ('lit', True):
+                    continue
+                hits = [x for x in dag_nodes(cond) if x[0] == 'method' and x[2] in ('exists', 'is_file', 'is_dir') and (any(same_path(x[1], v) for v in vis) or (tmp is not None and same_path(x[1], tmp)))]
+                if hits:
+                    R.violation('R05.5', f'{ci.short}.{mname}', key_of('stale-blocks', ci.short, pretty(cond)[:120]),
+                                f'`{src(e.site)}` (reached from {ci.short}.{mname}) fails when `{pretty(hits[0][1])}` is left over from an interrupted attempt: every later request raises instead of recomputing',
+                                witness=[e.describe()[:300]], where=where(e.ctx.func, e.site))
+    R.ok('R05.5', 'data classes', f'{n_assert} assertion(s) on save/init paths cannot be tripped by leftovers', where='src/taskchain/data.py')
 
     # ---- R05.2
     task = A.cls('Task')
